@@ -35,7 +35,12 @@ func runC03(e *core.Env) error {
 			w.client = jrpc2.New(w.node.URL()).WithMaxReads(1 + rr.Intn(3)).WithPollDuration(time.Hour)
 		}
 		var igs []config.Integration
+		sharedTable := nIG > 1 && rr.Chance(1, 3) // several integrations (same shape) writing to ONE table
 		for i := 0; i < nIG; i++ {
+			if sharedTable {
+				igs = append(igs, transferIG(fmt.Sprintf("ig%d", i+1), "tshared", core.Pick(rr, plans), nil))
+				continue
+			}
 			if rr.Chance(1, 3) {
 				// transaction-indexing: blocks only, nothing cross-checks the block hash afterwards
 				igs = append(igs, txIG(fmt.Sprintf("ig%d", i+1), fmt.Sprintf("t%d", i+1), core.Pick(rr, [][]string{{"tx_hash", "block_time"}, {"tx_hash", "tx_input", "block_hash"}})))
@@ -202,7 +207,7 @@ func runC03(e *core.Env) error {
 		}
 		nUnwind = w.tags["unwind"]
 		op, impl := w.caseOp()
-		tags := []string{fmt.Sprintf("shared-cached-client=%v", shared)}
+		tags := []string{fmt.Sprintf("shared-cached-client=%v", shared), fmt.Sprintf("shared-table=%v", sharedTable)}
 		for k, v := range w.tags {
 			for j := 0; j < v; j++ {
 				tags = append(tags, k)
@@ -213,6 +218,48 @@ func runC03(e *core.Env) error {
 		if w.dead || w.tags["outcome:panic"] > 0 {
 			e.Add(core.Case{Impl: "a step panicked or did not terminate", Spec: "every step returns", Key: fmt.Sprintf("c03-crash %d", h), Detail: map[string]any{"history": strings.Split(strings.Join(w.ops, "\n"), "\n")}})
 		}
+		w.close()
+	}
+	// ---- a LARGE batch size while following the head (one recorded position per block), then a reorg
+	// deeper than a few positions: the unwind is bounded by the number of positions (1000), not by blocks
+	for rep := 0; rep < e.N(3, 12) && !e.OverBudget(); rep++ {
+		rr := r.Fork()
+		chain := transferChain(3, uint64(1+rr.Intn(1000)))
+		w, err := newWorld(e, chain)
+		if err != nil {
+			return err
+		}
+		root := config.Root{Integrations: []config.Integration{transferIG("ig1", "t1", []string{"block_time"}, nil)}}
+		if err := w.setupRoot(&root); err != nil {
+			w.close()
+			return err
+		}
+		batch := core.Pick(rr, []int{100, 334, 500, 1000, 2000})
+		t, err := w.addTask("t1", root.Integrations[0], "src1", 1, 0, batch, 1+rr.Intn(2))
+		if err != nil {
+			w.close()
+			return err
+		}
+		w.step(t, noFault)
+		npos := 5 + rr.Intn(4)
+		for i := 0; i < npos && !w.dead; i++ {
+			w.grow(1)
+			w.step(t, noFault)
+		}
+		depth := 3 + rr.Intn(npos-3)
+		w.reorg(depth, depth+1)
+		w.grow(1)
+		for k := 0; k < 40 && !w.dead; k++ {
+			if out := w.step(t, noFault); out == "nothing-new" && w.taskTop(t) == w.head() {
+				break
+			}
+		}
+		oracles := []string{w.projOracle(t, 0)}
+		if w.taskTop(t) != w.head() {
+			e.Add(core.Case{Impl: fmt.Sprintf("batch_size %d: task stuck at %d of %d after a reorg of depth %d", batch, w.taskTop(t), w.head(), depth), Spec: "converged", Key: fmt.Sprintf("c03-big-stuck %d", rep)})
+		}
+		op, impl := w.caseOp()
+		e.Add(core.Case{Op: op, Impl: impl, Oracles: oracles, Nontrivial: true, Key: fmt.Sprintf("c03-bigbatch %d %d", rep, e.Seed), Tags: []string{"large-batch-deep-reorg", fmt.Sprintf("batch=%d", batch)}})
 		w.close()
 	}
 	// ---- a reorg that lands BETWEEN THE PARTITION REQUESTS of one step, for a plan that fetches blocks
